@@ -226,6 +226,7 @@ def doOffSp (l : Line) : Option String := do
   | .ok k => some s!"ok off={k}"
   | .error .notMultiple => some "err:shift-not-multiple"
   | .error .notContained => some "err:not-contained"
+  | .error .shiftedUnchanged => some "err:shifted-unchanged"
 
 def handle (l : Line) : Option String :=
   match l.op with
